@@ -227,6 +227,8 @@ def serve_facts(sr):
     echo_let = r"let (\w+) = " + helper + ";"
     def echo_name(block):
         mm = re.search(echo_let, block)
+        # the name must be bound exactly once (a second `let echo = …` would replace the helper's result)
+        if mm and len(re.findall(r"\blet (?:mut )?" + re.escape(mm.group(1)) + r"\b", block)) != 1: return "?rebound"
         return mm.group(1) if mm else None
     tb = some_block(fn_body(srv, "handle_connection"))
     tn = echo_name(tb) if tb else None
